@@ -1220,14 +1220,30 @@ def rule_match(ctx):
         tgt = st.target
         if isinstance(tgt.slice, ast.Tuple) and len(tgt.slice.elts) == 2 and isinstance(tgt.slice.elts[1], ast.Constant):
             col = tgt.slice.elts[1].value
-            shifts[col] = (st.op.__class__.__name__, norm(flow.resolve(st.value, at=st)), norm(tgt.value), st)
+            shifts[col] = (st.op.__class__.__name__, norm(flow.resolve(st.value, at=st)), norm(tgt.value), st, st.value)
+    if not shifts:
+        # out of place: X = X + np.array([-k, k])  (broadcast over the rows: column 0 - k, column 1 + k)
+        for st in flow.stmts:
+            if isinstance(st, ast.Assign) and len(st.targets) == 1 and isinstance(st.targets[0], ast.Name) and isinstance(st.value, ast.BinOp) \
+                    and isinstance(st.value.op, ast.Add):
+                for arr_, vec_ in ((st.value.left, st.value.right), (st.value.right, st.value.left)):
+                    vec_ = flow.resolve(vec_, at=st, depth=1) if isinstance(vec_, ast.Name) else vec_
+                    if isinstance(vec_, ast.Call) and (dotted(vec_.func) or "").split(".")[-1] in ("array", "asarray") and vec_.args:
+                        vec_ = vec_.args[0]
+                    if isinstance(vec_, (ast.List, ast.Tuple)) and len(vec_.elts) == 1 and isinstance(vec_.elts[0], (ast.List, ast.Tuple)):
+                        vec_ = vec_.elts[0]
+                    if isinstance(arr_, ast.Name) and arr_.id == st.targets[0].id and isinstance(vec_, (ast.List, ast.Tuple)) and len(vec_.elts) == 2 \
+                            and isinstance(vec_.elts[0], ast.UnaryOp) and isinstance(vec_.elts[0].op, ast.USub):
+                        k0, k1 = vec_.elts[0].operand, vec_.elts[1]
+                        shifts[0] = ("Sub", norm(flow.resolve(k0, at=st)), arr_.id, st, k0)
+                        shifts[1] = ("Add", norm(flow.resolve(k1, at=st)), arr_.id, st, k1)
     ok = set(shifts) == {0, 1} and shifts[0][0] == "Sub" and shifts[1][0] == "Add" and shifts[0][1] == shifts[1][1] \
         and shifts[0][2] == shifts[1][2]
     ctx.ob("FileSet.match.widen", ok, {k: v[:3] for k, v in shifts.items()},
            "column 0 -= k and column 1 += k with the same k on the same array",
-           node=(shifts.get(0) or shifts.get(1) or (0, 0, 0, f.node))[3], func=f)
+           node=(shifts.get(0) or shifts.get(1) or (0, 0, 0, f.node, 0))[3], func=f)
     if ok:
-        kexpr = shifts[0][3].value
+        kexpr = shifts[0][4]
         kres = flow.resolve(kexpr, at=shifts[0][3])
         # k is the whole max_interval in the unit of the integer times (seconds): total_seconds()
         txt = str(norm(kres))
@@ -1356,10 +1372,22 @@ def rule_match(ctx):
            "primaries without partner are omitted (`if matches`)", node=y, func=f)
     # conversion of both lists to the same integer unit
     conv = {}
-    for role, expr, at_ in (("tree", trees[0].args[0], trees[0]), ("query", queries[0].args[0], queries[0])):
+    def astype_chain(expr, at_, depth=0):
         full = flow.resolve(expr, at=at_, depth=5, stop=(L1, L2))
-        conv[role] = [c.args[0].value for c in ast.walk(full) if isinstance(c, ast.Call) and isinstance(c.func, ast.Attribute) and c.func.attr == "astype"
-                      and c.args and isinstance(c.args[0], ast.Constant)]
+        got = [c.args[0].value for c in ast.walk(full) if isinstance(c, ast.Call) and isinstance(c.func, ast.Attribute) and c.func.attr == "astype"
+               and c.args and isinstance(c.args[0], ast.Constant)]
+        if depth < 3:
+            # a name re-bound on one path only (`if widen: X = X + ...`): every definition is followed, all must agree
+            for nm_ in [n_ for n_ in ast.walk(full) if isinstance(n_, ast.Name) and isinstance(n_.ctx, ast.Load) and n_.id not in (L1, L2)]:
+                ds_ = [d_ for d_ in flow.defs(nm_.id, at_) if d_ != "param" and isinstance(d_, ast.Assign) and len(d_.targets) == 1
+                       and isinstance(d_.targets[0], ast.Name)]
+                if len(ds_) > 1:
+                    subs = [astype_chain(d_.value, d_, depth + 1) for d_ in ds_]
+                    if all(s_ == subs[0] for s_ in subs):
+                        got = got + subs[0]
+        return list(dict.fromkeys(got))
+    for role, expr, at_ in (("tree", trees[0].args[0], trees[0]), ("query", queries[0].args[0], queries[0])):
+        conv[role] = astype_chain(expr, at_)
     vals = list(conv.values())
     ctx.ob("FileSet.match.units", len(vals) == 2 and vals[0] == vals[1] and vals[0], "astype chains: %s" % conv,
            "both coverage arrays are converted to the same integer time unit", node=trees[0], func=f)
